@@ -27,6 +27,12 @@ FnGaryAutosomes  skgenome/gary.py GenomicArray.autosomes, WHOLE, per row "the ro
                  chromosome-name form of `also`)                              (C15_source_gary_autosomes)
 FnCnaryAutosomes CopyNumArray.autosomes, the WHOLE override (`also` an optional mask bit, `super().autosomes` a function-typed
                  input = the generated base-class function)           (C15_source_autosomes, C15_source_autosomes_also)
+FnCnaryDropLow   drop_low_coverage, the WHOLE function per row (row_filter)     (C15_source_drop_low)
+FnCnaryShifts    compare_sex_chromosomes: `female_x_shift, male_x_shift = (-1, 0) if ... else (0, +1)`   (C15_source_x_shifts; the
+                 model takes the four numbers from Gen/CenterDefaults.v, read off the same statement: a consistency tie)
+FnCnaryYFactor   compare_sex_chromosomes: `chry = self[...]` and the whole `if len(chry): ... else: chry_male_lr = np.nan`
+                                                                              (C15_source_y_factor)
+FnCnaryRatios    compare_sex_chromosomes: the three segment_mean calls and the two reported differences   (C15_source_sex_ratios)
 FnSexCommand     cnvlib/commands.py do_sex: strsign, guess_and_format (both nested, whole), the column names
                                                     (C15_source_strsign, C15_source_do_sex_row, C15_source_do_sex_columns)
 
@@ -59,6 +65,12 @@ translator refuses the module, which the check reports as a broken tie):
                   -> `self[~is_auto]` KILLED
   FnCnaryAutosomes  `also = self.parx_filter(..)` -> `~self.parx_filter(..)` KILLED ; `also |= ...` -> `&=` KILLED ;
                   `super().autosomes(also=also)` -> `(also=None)` KILLED
+  FnCnaryDropLow  `return self[~drop_idx]` -> `self[drop_idx]` KILLED ; `drop_idx |= ...depth == 0` -> `&=` KILLED
+  FnCnaryShifts   the two pairs swapped KILLED ; `+1` -> `+2` KILLED (with Gen/CenterDefaults.v held fixed)
+  FnCnaryYFactor  `if len(chry):` -> `if not len(chry):` KILLED ; `combined_score *= chry_male_lr` -> `+=` KILLED ;
+                  `chry_male_lr = np.nan` -> `1.0` KILLED
+  FnCnaryRatios   `chry_ratio=chry_mean - auto_mean` -> `- chrx_mean` KILLED ; chrx_mean taken from `auto` KILLED ;
+                  `chrx_ratio=chrx_mean - auto_mean` -> `auto_mean - chrx_mean` KILLED
   FnSexCommand    "Male" / "Female" swapped KILLED ; `num > 0` -> `>=` KILLED ; the Y column printing chrx_ratio KILLED ;
                   two column names swapped KILLED
 """
@@ -121,6 +133,23 @@ def _known_test():
         return ast.unparse(inner.test), 'est_funcs = {'
     except Exception as exc:   # noqa -- fail closed
         return 'estimator in est_funcs', '<cnvlib/cnary.py no longer has the expected shape: %s>' % exc
+
+
+_CSC_PARAMS = ['self', 'is_haploid_x_reference', 'diploid_parx_genome', 'skip_low']
+
+
+def _ratio_exprs():
+    """compare_sex_chromosomes ends in `return (<decision>, dict(chrx_ratio=<E1>, chry_ratio=<E2>, ...))`
+    ->  (source of E1, source of E2, prefix that finds `auto_mean = segment_mean(`); fail-closed"""
+    try:
+        ret = _method('compare_sex_chromosomes').body[-1]
+        d = ret.value.elts[1]
+        if not (isinstance(ret, ast.Return) and isinstance(d, ast.Call) and ast.unparse(d.func) == 'dict' and not d.args):
+            raise ValueError('does not end in return (decision, dict(...))')
+        kw = {k.arg: ast.unparse(k.value) for k in d.keywords}
+        return kw['chrx_ratio'], kw['chry_ratio'], 'auto_mean = segment_mean('
+    except Exception as exc:   # noqa -- fail closed
+        return 'auto_mean', 'auto_mean', '<cnvlib/cnary.py no longer has the expected shape: %s>' % exc
 
 
 _EST = [('pd.Series.mean', 'F:LQ>Q', 'series_mean'), ('pd.Series.median', 'F:LQ>Q', 'series_median'),
@@ -241,6 +270,46 @@ MODULES = {
                      ('isinstance(also, pd.Series)', 'B', 'also_is_series'),
                      ('super().autosomes', 'F:also=OB>B', 'base_autosomes')],
              ret='B'),
+    ]),
+    # drop_low_coverage, the WHOLE function read per row as "the row is kept" (row_filter): the cut-off, the depth test, the
+    # log-only `if verbose and drop_idx.any():` (dropped), `return self[~drop_idx]`
+    'FnCnaryDropLow': ('cnvlib/cnary.py', [
+        dict(name='CopyNumArray.drop_low_coverage', coq='fn_drop_low_keep', py_params=['self', 'verbose'], row_filter='self',
+             params=[("self.data['log2']", 'Q', 'log2_'), ("'depth' in self", 'B', 'has_depth'),
+                     ("self.data['depth']", 'Q', 'depth'), ('verbose', 'B'),
+                     ('params.NULL_LOG2_COVERAGE', 'Q', 'null_log2_coverage'),
+                     ('params.MIN_REF_COVERAGE', 'Q', 'min_ref_coverage')],
+             ret='B'),
+    ]),
+    # compare_sex_chromosomes, pieces of the top-level body (tables are opaque ids, as in fix.py):
+    #   fn_x_shifts   `female_x_shift, male_x_shift = (-1, 0) if is_haploid_x_reference else (0, +1)`
+    #   fn_y_factor   `chry = self[self.chr_y_filter(diploid_parx_genome)]` and the whole statement `if len(chry): [if skip_low: chry = chry.drop_low_coverage() -- an opaque range];
+    #                 chry_male_lr = compare_chrom(chry.., +3, 0); if np.isfinite(chry_male_lr): combined_score *= chry_male_lr
+    #                 else: chry_male_lr = np.nan`
+    #   fn_sex_ratios the two reported ratios: the three segment_mean calls and the differences handed to the result dict
+    #                 (their source is read off the return statement with `ast`)
+    'FnCnaryShifts': ('cnvlib/cnary.py', [
+        dict(name='CopyNumArray.compare_sex_chromosomes', coq='fn_x_shifts', py_params=_CSC_PARAMS,
+             fragment=dict(first='tup1_0__ = ', last='male_x_shift = '),
+             params=[('is_haploid_x_reference', 'B')], returns=['female_x_shift', 'male_x_shift'], ret=['Z', 'Z']),
+    ]),
+    'FnCnaryYFactor': ('cnvlib/cnary.py', [
+        dict(name='CopyNumArray.compare_sex_chromosomes', coq='fn_y_factor', py_params=_CSC_PARAMS,
+             fragment=dict(first='chry = self[self.chr_y_filter(', last='if '),
+             opaque=[dict(first='if skip_low', last='if skip_low', assigns=[('chry', 'chry_after')])],
+             init=[('chry_male_lr', 'OQ', 'None')],
+             params=[('self[self.chr_y_filter(diploid_parx_genome)]', 'Z', 'chry_id'), ('chry_after', 'Z'), ('len(chry)', 'Z', 'n_chry'), ('combined_score', 'Q'),
+                     ("compare_chrom(chry['log2'].values, chry['weight'].values if use_weight else None, +3, 0)", 'Q', 'y_lr'),
+                     ('np.isfinite(chry_male_lr)', 'B', 'y_finite')],
+             returns=['combined_score', 'chry_male_lr'], ret=['Q', 'OQ']),
+    ]),
+    'FnCnaryRatios': ('cnvlib/cnary.py', [
+        dict(name='CopyNumArray.compare_sex_chromosomes', coq='fn_sex_ratios', py_params=_CSC_PARAMS,
+             fragment=dict(first=_ratio_exprs()[2], last='chry_mean = segment_mean('),
+             params=[('segment_mean(auto, skip_low=skip_low)', 'Q', 'auto_mean_v'),
+                     ('segment_mean(chrx, skip_low=skip_low)', 'Q', 'chrx_mean_v'),
+                     ('segment_mean(chry, skip_low=skip_low)', 'OQ', 'chry_mean_v')],
+             returns=list(_ratio_exprs()[:2]), ret=['Q', 'OQ']),
     ]),
     # commands.do_sex: strsign (whole; the two `%.3g` texts are string inputs, the number may be NaN), guess_and_format
     # (whole: the label `"Male" if is_xy else "Female"` on the optional boolean, `... if stats else "NA"` on the statistics
